@@ -135,6 +135,19 @@ def judge(ctx, script, sig, seed, limits=(1024, 1024, 128), variant=0):
                           f'script {script.hex()}: {diff!r}')
 
 
+    # ... and through run_auth_scripts with further scripts after this one: the cache every later script runs on still has them
+    mon2, v2 = monitor.run_monitored_auth([script, op('TRUE') + op('POP0'), op('TRUE')], limits, cache=copy.deepcopy(init),
+                                          contracts=stepspace.CONTRACTS)
+    ctx.ran()
+    for i, c3 in enumerate(mon2.top_caches):
+        a3 = {k: v for k, v in c3.items() if type(k) is str}
+        if a3 != before:
+            diff = {k: (before.get(k), a3.get(k)) for k in set(before) | set(a3) if before.get(k) != a3.get(k)}
+            ctx.violation({**sig, 'clause': 'string-keyed entries changed for a later script of run_auth_scripts', 'keys': sorted(map(str, diff))},
+                          f'script {script.hex()} as script 1 of 3: cache of script {i + 1}: {diff!r}')
+            break
+
+
 def attack_case(ctx, idxs):
     st = attack_statements(ctx.seed)
     script = b''.join(st[i][1] for i in idxs)
